@@ -13,9 +13,11 @@
    activity on A (stagnating runs, parse-only, protocol-mode construction / runs, a twin of B …), for
    B with open-ended / computed / closed repetitions, constraints, stdlib, protocol mode; two orders
    (A before B exists; A after B was constructed); fixed random seed and PYTHONHASHSEED.  Run twice:
-   unmasked and masked (nodes.MAX_REPETITIONS restored between A and B): a difference that needs the
-   unmasked run is the known finding `C18/global-MAX_REPETITIONS`; a difference that survives masking is
-   a different leak with its own signature.
+   unmasked and masked (nodes.MAX_REPETITIONS restored between A and B).  ANY difference between B alone
+   and B after A is a violation; the masked run is a diagnostic that names the channel: a difference that
+   needs the unmasked run goes through the module global (`C18/global-MAX_REPETITIONS`, fixed in /repo by
+   59688743 — it reappears if the cap becomes process-global again), a difference that survives masking is
+   a different leak with its own signature (e.g. `C18/io-env-key-last-spec-wins`, fixed by a511dc56).
 """
 from __future__ import annotations
 
@@ -400,7 +402,7 @@ def plan(run: Run, tier: str) -> list[dict]:
     for bk, ak, order in corpus:
         b = gen_b(rng, bk)
         pairs.append({"b": b, "a": gen_a(rng, ak, b), "order": order})
-    extra = 8 if tier == "quick" else 90
+    extra = 20 if tier == "quick" else 400
     for _ in range(extra):
         b = gen_b(rng, rng.choice(B_KINDS))
         ak = rng.choice(A_KINDS)
@@ -486,11 +488,11 @@ def main(tier: str) -> int:
     corr_failures: list = []
     if lean.ok:
         # (2a) tuner arithmetic
-        tuner_correspondence(run, 400 if tier == "quick" else 6000, corr_failures)
+        tuner_correspondence(run, 1000 if tier == "quick" else 8000, corr_failures)
     # (2b) + (3): fresh processes
     pairs = plan(run, tier)
     rng = run.rng("traces")
-    traces = [trace_config(rng) for _ in range(6 if tier == "quick" else 40)]
+    traces = [trace_config(rng) for _ in range(10 if tier == "quick" else 50)]
     tres = run_many([({"steps": t["steps"]}, rng.randint(0, 10 ** 6)) for t in traces])
     if lean.ok:
         defaults = {"repRate": 0.5}
